@@ -4,6 +4,9 @@
 // Generated file: the template is /verif/contracts/V-DERIVE.rs.tpl.
 #![allow(unused_imports, unused_variables, dead_code)]
 use vstd::prelude::*;
+// the imports of the source files the items come from (path spelling is not semantics)
+use core::marker::PhantomData;
+use core::ops::{Bound, ControlFlow};
 verus! {
 
 global size_of usize == 8;
